@@ -136,6 +136,7 @@ class SSHChannel(Generic[AnyStr], SSHPacketHandler):
         self._recv_pktsize = max_pktsize
         self._recv_paused: Union[bool, str] = 'starting'
         self._recv_buf: List[Tuple[bytes, DataType]] = []
+        self._recv_buf_len = 0
 
         self._request_queue: List[Tuple[str, SSHPacket, bool]] = []
 
@@ -266,6 +267,7 @@ class SSHChannel(Generic[AnyStr], SSHPacketHandler):
 
         # Discard unreceived data
         self._recv_buf = []
+        self._recv_buf_len = 0
         self._recv_paused = False
 
         # If recv is close_pending, we know send is already closed
@@ -338,7 +340,9 @@ class SSHChannel(Generic[AnyStr], SSHPacketHandler):
         """Flush as much data in the recv buffer as the application allows"""
 
         while self._recv_buf and not self._recv_paused:
-            self._deliver_data(*self._recv_buf.pop(0))
+            data, datatype = self._recv_buf.pop(0)
+            self._recv_buf_len -= len(data)
+            self._deliver_data(data, datatype)
 
         if not self._recv_buf and self._recv_paused != 'starting':
             if self._encoding and not exc and \
@@ -365,16 +369,18 @@ class SSHChannel(Generic[AnyStr], SSHPacketHandler):
     def _deliver_data(self, data: bytes, datatype: DataType) -> None:
         """Deliver incoming data to the session"""
 
-        self._recv_window -= len(data)
+        # Data which is still buffered continues to occupy the window
+        window = self._init_recv_window - self._recv_buf_len
 
-        if self._recv_window < self._init_recv_window / 2:
-            adjust = self._init_recv_window - self._recv_window
+        if self._recv_window < self._init_recv_window / 2 and \
+                window > self._recv_window:
+            adjust = window - self._recv_window
 
             self.logger.debug2('Sending window adjust of %d bytes, '
-                               'new window %d', adjust, self._init_recv_window)
+                               'new window %d', adjust, window)
 
             self.send_packet(MSG_CHANNEL_WINDOW_ADJUST, UInt32(adjust))
-            self._recv_window = self._init_recv_window
+            self._recv_window = window
 
         if self._encoding:
             try:
@@ -408,6 +414,7 @@ class SSHChannel(Generic[AnyStr], SSHPacketHandler):
 
         if self._recv_paused:
             self._recv_buf.append((data, datatype))
+            self._recv_buf_len += len(data)
         else:
             self._deliver_data(data, datatype)
 
@@ -583,6 +590,8 @@ class SSHChannel(Generic[AnyStr], SSHPacketHandler):
         if datalen > self._recv_window:
             raise ProtocolError('Window exceeded')
 
+        self._recv_window -= datalen
+
         self.logger.debug2('Received %d data byte%s', datalen,
                            's' if datalen > 1 else '')
 
@@ -606,6 +615,8 @@ class SSHChannel(Generic[AnyStr], SSHPacketHandler):
 
         if datalen > self._recv_window:
             raise ProtocolError('Window exceeded')
+
+        self._recv_window -= datalen
 
         self.logger.debug2('Received %d data byte%s from %s', datalen,
                            's' if datalen > 1 else '',
